@@ -49,3 +49,41 @@ pub fn concurrent_work_in_progress<VM: VMBinding>(mmtk: &MMTK<VM>) -> bool {
         .concurrent()
         .is_some_and(|p| p.concurrent_work_in_progress())
 }
+
+/// `[addr >> 32, (addr & 0xffff_ffff) >> 3]` — the fixed address projection used in traces (TLC
+/// integers are 32-bit); the same function as the harness' `proj`.
+pub fn proj_addr(addr: Address) -> String {
+    let a = addr.as_usize();
+    format!("[{},{}]", a >> 32, (a & 0xffff_ffff) >> 3)
+}
+
+/// JSON array of projected addresses.
+pub fn proj_addrs(addrs: impl Iterator<Item = Address>) -> String {
+    let mut s = String::from("[");
+    for (i, a) in addrs.enumerate() {
+        if i > 0 {
+            s.push(',');
+        }
+        s.push_str(&proj_addr(a));
+    }
+    s.push(']');
+    s
+}
+
+/// Name of the pause a concurrent plan is in ("Full", "InitialMark", "FinalMark"); "None" outside
+/// pauses; "-" for plans that are not concurrent (C12).
+pub fn current_pause_name<VM: VMBinding>(mmtk: &MMTK<VM>) -> &'static str {
+    match mmtk.get_plan().concurrent() {
+        None => "-",
+        Some(p) => match p.current_pause() {
+            None => "None",
+            // `Pause` lives in a private module: go through its Debug text
+            Some(pause) => match format!("{:?}", pause).as_str() {
+                "Full" => "Full",
+                "InitialMark" => "InitialMark",
+                "FinalMark" => "FinalMark",
+                _ => "?",
+            },
+        },
+    }
+}
